@@ -51,6 +51,9 @@ func TrimDomainName(s, origin string) string {
 	if s == "" {
 		return "@"
 	}
+	if origin == "" {
+		return s // Nothing to trim, as AddOrigin has nothing to append.
+	}
 	// Someone is using TrimDomainName(s, ".") to remove a dot if it exists.
 	if origin == "." {
 		// not strings.TrimSuffix: an escaped final dot belongs to the last label
